@@ -81,7 +81,7 @@ def run_c01(ck):
 def run_c07(ck):
     quick = ck.tier == "quick"
     rng = random.Random(ck.seed + 7)
-    n = 220 if quick else 3000
+    n = 400 if quick else 3000
     k = 3 if quick else 8
     groups = []
     jobs = []
